@@ -166,6 +166,26 @@ func backupCmd(out *cq.Out, seed uint64, tier string) {
 				live = live[1:]
 			}
 		}
+		// ... and the rotation the other way round: with that hole, the NEWEST backup carries an identifier larger than the
+		// number of backups that exist; it is listed, so naming it must delete it (and only it)
+		if len(live) >= 3 && live[len(live)-1].id > int64(len(live)) {
+			last := live[len(live)-1]
+			if err := n.DeleteBackup(uint32(last.id)); err != nil {
+				out.Violate("C16:delete-failed", fmt.Sprintf("backup %d is listed (%d backups exist) but deleting it fails: %v", last.id, len(live), err), desc)
+			} else {
+				ops = append(ops, fmt.Sprintf("BDelete %d%%N", last.id))
+				hist = append(hist, fmt.Sprintf("delete backup %d", last.id))
+				live = live[:len(live)-1]
+				have := map[uint32]bool{}
+				for _, bi := range n.ListBackups() {
+					have[uint32(bi.ID)] = true
+				}
+				if have[uint32(last.id)] || len(have) != len(live) {
+					out.Violate("C16:delete-removed-wrong-set", fmt.Sprintf("after deleting backup %d the node lists %d backups (it listed %d before)", last.id, len(have), len(live)+1), desc)
+				}
+			}
+			out.Case("delete-newest-after-hole", true)
+		}
 		// ---- restore every existing backup into a fresh directory and examine the node that opens on it
 		st := n.VStore()
 		for _, b := range live {
